@@ -44,11 +44,53 @@ fn parse_tape(s: &str) -> Vec<Vec<u8>> {
     out
 }
 
+fn panic_msg(e: Box<dyn std::any::Any + Send>) -> String {
+    if let Some(s) = e.downcast_ref::<String>() {
+        s.clone()
+    } else if let Some(s) = e.downcast_ref::<&str>() {
+        s.to_string()
+    } else {
+        String::from("<non-string panic>")
+    }
+}
+
 fn main() {
     let args: Vec<String> = std::env::args().collect();
     if args.len() < 3 {
-        eprintln!("usage: vreplay <harness> <tape.json>");
+        eprintln!("usage: vreplay <harness> <tape.json> | vreplay --search <harness> <trials> <seed> <out-tape.json> [<failed-check-substring>]");
         std::process::exit(2);
+    }
+    if args[1] == "--search" {
+        // Directed native search for a concrete witness of a violation the solver has already
+        // established: random tapes biased towards special values; the first run whose harness
+        // assertion fails (optionally: with the given message) is written out as a tape.
+        let f = prometheus::verif_incrate::dispatch(&args[2]).expect("unknown harness");
+        let trials: u64 = args[3].parse().unwrap();
+        let seed: u64 = args[4].parse().unwrap();
+        let want = args.get(6).cloned().unwrap_or_default();
+        panic::set_hook(Box::new(|_| {}));
+        let mut diverged = 0u64;
+        for t in 0..trials {
+            prometheus::verif_rt::start_search(seed.wrapping_mul(0x9E3779B97F4A7C15).wrapping_add(t.wrapping_mul(0xD1B54A32D192ED03)));
+            let r = panic::catch_unwind(f);
+            if let Err(e) = r {
+                let msg = panic_msg(e);
+                if msg.contains("REPLAY-DIVERGED") {
+                    diverged += 1;
+                    continue;
+                }
+                if !want.is_empty() && !msg.contains(&want) {
+                    continue;
+                }
+                let tape = prometheus::verif_rt::get_tape();
+                let js: Vec<String> = tape.iter().map(|v| format!("[{}]", v.iter().map(|b| b.to_string()).collect::<Vec<_>>().join(","))).collect();
+                std::fs::write(&args[5], format!("[{}]", js.join(","))).unwrap();
+                println!("SEARCH-RESULT: witness found at trial {} ({} trials left the assumed region): {}", t, diverged, msg);
+                std::process::exit(1);
+            }
+        }
+        println!("SEARCH-RESULT: no witness in {} trials ({} left the assumed region)", trials, diverged);
+        std::process::exit(0);
     }
     let tape = parse_tape(&std::fs::read_to_string(&args[2]).expect("tape file"));
     let f = match prometheus::verif_incrate::dispatch(&args[1]) {
@@ -67,13 +109,7 @@ fn main() {
             std::process::exit(0);
         }
         Err(e) => {
-            let msg = if let Some(s) = e.downcast_ref::<String>() {
-                s.clone()
-            } else if let Some(s) = e.downcast_ref::<&str>() {
-                s.to_string()
-            } else {
-                String::from("<non-string panic>")
-            };
+            let msg = panic_msg(e);
             if msg.contains("REPLAY-DIVERGED") {
                 println!("REPLAY-RESULT: diverged: {}", msg);
                 std::process::exit(3);
